@@ -100,6 +100,14 @@ def build(case, seed):
     if h2 != "none":
         ref = {"A": "{%s}" % aref, "B": "{%s}" % nb}.get(h2)
         sidecar["host2"] = {"HED": {"g1": ("(%s, Ellipse)" % ref) if ref else "(Ellipse)"}}
+    if seed % 2:
+        # documentation text that mentions columns in curly braces: it is not annotation, nothing is referenced by it
+        doc = "coded as in {colC} / {%s} / {HED}; see {host} and {%s}" % (nb, na)
+        for cname, entry in sidecar.items():
+            if "HED" in entry:
+                entry["Description"] = doc
+                if isinstance(entry["HED"], dict):
+                    entry["Levels"] = {k: "level %s, cf. {%s} {colC}" % (k, nb) for k in entry["HED"]}
     cols = {"onset": [], "host": [], nb: []} if lean else {"onset": [], "host": [], nb: [], "colC": [], "ignored": []}
     if h2 != "none":
         cols["host2"] = []
